@@ -248,4 +248,66 @@ class C04e(Obligation):
         ctx.check(ctx.Not(ctx.Or(*wrong)) if wrong else True, 'fragment == the token text up to the cursor')
 
 
-OBLIGATIONS = [C04a, C04b, C04c, C04d, C04e]
+from jedi.inference.value import instance as jinstance  # noqa: E402
+from jedi.inference.value.klass import ClassFilter  # noqa: E402
+from jedi.inference.compiled.value import CompiledValueFilter  # noqa: E402
+
+
+class C04f(Obligation):
+    id = 'C04.f'
+    title = 'attribute sources of an instance: self-attributes of EVERY source-defined class of the MRO, wherever compiled classes sit in it; class filters wrapped per kind'
+    pattern = 'P3 (MRO of K classes with symbolic compiled/source flags; filter constructors are recording stubs)'
+    assumptions = (
+        'the MRO has K<=4 entries with symbolic is_compiled answers; class_value.get_filters yields one filter per MRO '
+        'entry whose kind (ClassFilter / CompiledValueFilter / other) is symbolic; SelfAttributeFilter, '
+        'InstanceClassFilter and CompiledInstanceClassFilter are recording stubs',
+    )
+
+    def configs(self, tier):
+        return [dict(K=k) for k in ((2, 3) if tier == 'quick' else (1, 2, 3, 4))]
+
+    def scenario(self, ctx, cfg):
+        K = cfg['K']
+        compiled = [ctx.flag('class%d_is_compiled' % i) for i in range(K)]
+        kinds = [ctx.choice('class_filter%d_kind' % i, 3) for i in range(K)]
+        mro = [Obj(tag='class%d' % i, is_compiled=(lambda c=compiled[i]: c), as_context=(lambda i=i: 'context%d' % i))
+               for i in range(K)]
+        cf = []
+        for i in range(K):
+            if kinds[i] == 0:
+                f = ClassFilter.__new__(ClassFilter)
+            elif kinds[i] == 1:
+                f = CompiledValueFilter.__new__(CompiledValueFilter)
+            else:
+                f = Obj(tag='metaclass-filter%d' % i)
+            cf.append(f)
+        asked = []
+
+        def get_filters(origin_scope=None, is_instance=False):
+            asked.append(is_instance)
+            return iter(cf)
+        class_value = Obj(py__mro__=lambda: iter(mro), get_filters=get_filters)
+        inst = jinstance._BaseTreeInstance.__new__(jinstance._BaseTreeInstance)
+        inst._pysym_holder = True
+        inst.get_annotated_class_object = lambda: class_value
+        ctx.patch(jinstance, 'SelfAttributeFilter', lambda i, cv, c, o: ('self-attributes', c))
+        ctx.patch(jinstance, 'InstanceClassFilter', lambda i, f: ('instance-class', f))
+        ctx.patch(jinstance, 'CompiledInstanceClassFilter', lambda i, f: ('compiled-instance-class', f))
+        ctx.force(jinstance._BaseTreeInstance.get_filters)
+        out = ctx.call(lambda: list(jinstance._BaseTreeInstance.get_filters(inst)))
+        ctx.check(out.exc is None, 'never raises')
+        if out.exc is not None:
+            return
+        expected = [('self-attributes', 'context%d' % i) for i in range(K) if not compiled[i]]
+        for i in range(K):
+            expected.append([('instance-class', cf[i]), ('compiled-instance-class', cf[i]), cf[i]][kinds[i]])
+        got = out.value
+        ctx.check(len(got) == len(expected) and all(a is b or (isinstance(a, tuple) and isinstance(b, tuple) and a[0] == b[0] and a[1] is b[1] or a == b)
+                                                     for a, b in zip(got, expected)),
+                  'self-attribute filters for exactly the source-defined MRO classes (in MRO order), then the class filters')
+        ctx.check(asked == [True], 'the class filters are requested once, for an instance')
+        out2 = ctx.call(lambda: list(jinstance._BaseTreeInstance.get_filters(inst, include_self_names=False)))
+        ctx.check(out2.exc is None and len(out2.value) == K, 'include_self_names=False drops exactly the self-attribute filters')
+
+
+OBLIGATIONS = [C04a, C04b, C04c, C04d, C04e, C04f]
